@@ -65,4 +65,42 @@ theorem enum_value_to_doc_build (v : EnumValD) (hv : v.value = .str v.name) (hn 
   simp only [List.contains_eq_mem, decide_eq_false_iff_not] at hn'
   simp [buildEnumValue, enumValToDef, failIf, hn', depr_roundtrip, bind, Except.bind, pure, Except.pure]
 
+/-- a type whose members are plain, carrying nothing but by-name content, with only the member lists of its kind -/
+structure PlainType (env : Env) (t : TypeD) : Prop where
+  fields : ∀ f ∈ t.fields, PlainField env f
+  inputFields : ∀ a ∈ t.inputFields, PlainArg env a
+  values : ∀ v ∈ t.values, v.value = .str v.name ∧ reservedEnumNames.contains v.name = false
+  valuesUnique : hasDup (t.values.map (·.name)) = false
+  interfaces : t.interfaces.all env.resolves = true
+  members : t.members.all env.resolves = true
+  noResolver : t.defaultResolver = none
+  notBuiltin : t.builtin = false
+  shape : match t.kind with
+    | .scalar => t.interfaces = [] ∧ t.fields = [] ∧ t.members = [] ∧ t.values = [] ∧ t.inputFields = []
+    | .object => t.members = [] ∧ t.values = [] ∧ t.inputFields = []
+    | .interface => t.interfaces = [] ∧ t.members = [] ∧ t.values = [] ∧ t.inputFields = []
+    | .union => t.interfaces = [] ∧ t.fields = [] ∧ t.values = [] ∧ t.inputFields = []
+    | .enum => t.interfaces = [] ∧ t.fields = [] ∧ t.members = [] ∧ t.inputFields = []
+    | .input => t.interfaces = [] ∧ t.fields = [] ∧ t.members = [] ∧ t.values = []
+
+/-- **to_doc_build**, type level: building the definition the printer writes for a type gives the type back
+    (all six kinds; members without default values — defaults are `default_roundtrip`). -/
+theorem type_to_doc_build (s : SchemaD) (env : Env) (t : TypeD) (h : PlainType env t) : buildTypeDef env (typeToDef s t) = .ok t := by
+  have hf := mapM_to_doc (fieldToDef s) (buildField env) t.fields (fun f hf => field_to_doc_build s env f (h.fields f hf))
+  have hi := mapM_to_doc (argToDef s) (buildArgument env) t.inputFields (fun a ha => arg_to_doc_build s env a (h.inputFields a ha))
+  have hv := mapM_to_doc enumValToDef buildEnumValue t.values (fun v hv => enum_value_to_doc_build v (h.values v hv).1 (h.values v hv).2)
+  have hci : checkNames env t.interfaces = .ok () := (checkNames_ok_iff env _).mpr h.interfaces
+  have hcm : checkNames env t.members = .ok () := (checkNames_ok_iff env _).mpr h.members
+  have hdup : hasDup ((t.values.map enumValToDef).map (·.name)) = false := by
+    rw [List.map_map]; exact h.valuesUnique
+  have hs := h.shape
+  have h1 := h.noResolver
+  have h2 := h.notBuiltin
+  cases t with
+  | mk kind name desc interfaces fields members values inputFields defaultResolver builtin =>
+    simp only [] at hf hi hv hci hcm hdup hs h1 h2
+    subst h1 h2
+    cases kind <;> simp only [] at hs <;>
+      simp_all [buildTypeDef, typeToDef, failIf, bind, Except.bind, pure, Except.pure]
+
 end PyGql.Props.C12
